@@ -468,3 +468,42 @@ Section HalfRange.
   Lemma rel4_init : rel4 (r_init J j0) (a_init J j0).
   Proof. unfold rel4; simpl. repeat split; auto. Qed.
 End HalfRange.
+
+(* ---- the recount state is what its names say: the received set is the list
+   of all arrivals, the highest is their maximum ---- *)
+Section SpecReading.
+  Variable J : Type.
+  Variable j0 : J.
+  Variable jstep : J -> Z -> Z -> Z -> J.
+  Variable jout : J -> Z.
+  Variable dk : Z -> Z.
+  Variable rate : Z.
+
+  Fixpoint a_final (a : astate J) (ops : list aop) : astate J :=
+    match ops with [] => a | op :: tl => a_final (fst (a_step J jstep jout dk rate a op)) tl end.
+
+  Fixpoint arrivals (ops : list aop) : list Z :=
+    match ops with [] => [] | ARtp _ v _ :: tl => v :: arrivals tl | _ :: tl => arrivals tl end.
+
+  Definition max_opt (m : option Z) (v : Z) : option Z :=
+    Some (match m with None => v | Some H => Z.max H v end).
+
+  Lemma spec_hi_recv : forall ops a, (a_hi a = None -> a_recv a = []) ->
+    a_hi (a_final a ops) = fold_left max_opt (arrivals ops) (a_hi a) /\
+    a_recv (a_final a ops) = rev (arrivals ops) ++ a_recv a.
+  Proof.
+    induction ops as [|op ops IH]; intros a Hn; cbn [a_final arrivals fold_left rev app]; auto.
+    destruct op as [now v ts|now ntp|now]; cbn [a_step fst arrivals fold_left rev].
+    - destruct (IH (a_rtp J jstep rate a now v ts)) as [A B].
+      { unfold a_rtp. destruct (a_hi a); simpl; discriminate. }
+      rewrite A, B. unfold a_rtp, max_opt. destruct (a_hi a) eqn:E; cbn [a_hi a_recv].
+      + rewrite <- app_assoc. auto.
+      + rewrite (Hn eq_refl), <- app_assoc. auto.
+    - apply (IH (a_sr J a now ntp)). exact Hn.
+    - unfold a_report, a_report_gen. cbv zeta. destruct (a_hi a) eqn:E; cbn [fst].
+      + match goal with |- context [a_final ?x ops] => destruct (IH x) as [A B] end.
+        { cbn [a_hi]. discriminate. }
+        cbn [a_hi a_recv] in A, B. split; assumption.
+      + rewrite <- E. apply IH. rewrite E. exact Hn.
+  Qed.
+End SpecReading.
